@@ -58,8 +58,9 @@ instance (n : Option Node) : Decidable (ReadableNode n) := by
   unfold ReadableNode
   split <;> infer_instance
 
-/-- `get_object` may be compared with the store, for every range: names agree; for admissible names the bucket exists
-    [else fs:missing-bucket-reported-as-missing-key] and the path is not a leftover directory [fs:leftover-directory] -/
+/-- `get_object` may be compared with the store, for every range: names agree; for admissible names, when the bucket
+    exists the path is not a leftover directory [else fs:leftover-directory]. A missing bucket is inside since 391a940
+    (`NoSuchBucket` on both sides; before: fs:missing-bucket-reported-as-missing-key) -/
 def GetOk (s : State) (b k : Bytes) : Prop :=
   NameOk b ∧ CanonKey k ∧ sideTooLong b k false = false ∧
   (bucketOk b = true →
@@ -67,7 +68,7 @@ def GetOk (s : State) (b k : Bytes) : Prop :=
     | none => True
     | some p =>
       match s.tree b with
-      | none => False
+      | none => True
       | some t => ReadableNode (t.node p))
 
 theorem loadMeta_eq {s : State} (hi : Inv s) {b k : Bytes} (hshort : sideTooLong b k false = false) :
@@ -98,7 +99,11 @@ theorem get_refines (H : Hashes) (dl : Nat) {s : State} (hi : Inv s) {b k : Byte
       rw [hkp] at hcanon hbucket
       simp only at hcanon hbucket
       cases ht : s.tree b with
-      | none => rw [ht] at hbucket; exact absurd hbucket (by simp)
+      | none =>
+        have habs : (abs s).bucket b = none := by rw [abs_bucket, ht]; rfl
+        have hh : alHas b s.buckets = false := by
+          unfold State.tree at ht; simp [alHas, ht]
+        simp [step, StoreSpec.step, objPath, hbd, hkp, hbo, hko, habs, State.node, ht, hh, hi]
       | some t =>
         rw [ht] at hbucket
         simp only at hbucket
@@ -109,8 +114,10 @@ theorem get_refines (H : Hashes) (dl : Nat) {s : State} (hi : Inv s) {b k : Byte
         have hnode : s.node b p = t.node p := by simp [State.node, ht]
         cases hn : t.node p with
         | none =>
+          have hh : alHas b s.buckets = true := by
+            unfold State.tree at ht; simp [alHas, ht]
           rw [hn] at hlook
-          simp [step, StoreSpec.step, objPath, hbd, hkp, hbo, hko, habs, hnode, hn, hlook, hi]
+          simp [step, StoreSpec.step, objPath, hbd, hkp, hbo, hko, habs, hnode, hn, hlook, hh, hi]
         | some n =>
           cases n with
           | dir => rw [hn] at hbucket; exact absurd hbucket (by simp [ReadableNode])
